@@ -30,10 +30,11 @@ ImplKeyAccept(f, k) == LET s == Scan(f, 1, {}) IN ~s.err /\ k \in s.keys
 
 \* ---- password callback for the service users
 Users == {"health", "schedule", "continuous", "other"}
-Passwords == {"HEALTHPW", "job1", "job2", "job3", "wrong", ""}
+Passwords == {"HEALTHPW", "job1", "job2", "job3", "jobX", "wrong", ""}
 Addrs == {"ip1", "ip2", "ip1x", "ipz"}       \* ip1x: an address that has ip1 as a textual prefix (127.0.0.1 vs 127.0.0.10)
-SchedJobs == {[name |-> "job1", allow |-> {"ip1"}], [name |-> "job2", allow |-> {"ip2", "ip1"}]}
-ContJobs  == {[name |-> "job3", allow |-> {"ip2"}]}
+\* jobX: a scheduled and a continuous job may carry the same name; their allow lists stay separate
+SchedJobs == {[name |-> "job1", allow |-> {"ip1"}], [name |-> "job2", allow |-> {"ip2", "ip1"}], [name |-> "jobX", allow |-> {"ip2"}]}
+ContJobs  == {[name |-> "job3", allow |-> {"ip2"}], [name |-> "jobX", allow |-> {"ip1"}]}
 RefPwAccept(u, pw, addr) ==
   \/ u = "health" /\ pw = "HEALTHPW"
   \/ u = "schedule" /\ \E j \in SchedJobs : pw = j.name /\ addr \in j.allow
@@ -49,15 +50,23 @@ RefHealthAnswers(cmd) == cmd = "health"
 ImplHealthAnswers(cmd) == cmd = "health"       \* handleHealthCommand(): only "health" produces OK, everything else an error message
 
 \* ---- histories: authentication is stateless - an earlier grant must not influence a later decision
-VARIABLES file, hist
-vars == <<file, hist>>
+VARIABLES file, hist, rewrites
+vars == <<file, hist, rewrites>>
 Offers == [user : {"alice", "bob"}, key : Offered]
-Init == file \in [{"alice", "bob"} -> Files] /\ hist = <<>>
-Offer(o) == Len(hist) < 2 /\ hist' = Append(hist, [o |-> o, granted |-> ImplKeyAccept(file[o.user], o.key)]) /\ UNCHANGED file
-Next == (\E o \in Offers : Offer(o)) \/ UNCHANGED vars
+Init == file \in [{"alice", "bob"} -> Files] /\ hist = <<>> /\ rewrites = 0
+\* every decision reads the user's file as it is at that moment (entries remember the content they were judged against)
+Offer(o) == /\ Len(hist) < 2
+            /\ hist' = Append(hist, [o |-> o, f |-> file[o.user], granted |-> ImplKeyAccept(file[o.user], o.key)])
+            /\ UNCHANGED <<file, rewrites>>
+\* the administrator replaces a user's file between two logins (edit, restore of a saved copy, sync preserving timestamps)
+Rewrite(u, f) == rewrites < 1 /\ Len(hist) = 1 /\ file' = [file EXCEPT ![u] = f] /\ rewrites' = rewrites + 1 /\ UNCHANGED hist
+\* (by symmetry only alice's file is replaced, by files of at most one line; the harness replaces either user's file by any file)
+Next == (\E o \in Offers : Offer(o)) \/ (\E f \in {g \in Files : Len(g) <= 1} : Rewrite("alice", f)) \/ UNCHANGED vars
 Spec == Init /\ [][Next]_vars
-KeyDecisionsRight == \A i \in 1..Len(hist) : hist[i].granted = RefKeyAccept(file[hist[i].o.user], hist[i].o.key)
-NeverGrantUnlisted == \A i \in 1..Len(hist) : hist[i].granted => RefKeyAccept(file[hist[i].o.user], hist[i].o.key)
+KeyDecisionsRight == \A i \in 1..Len(hist) : hist[i].granted = RefKeyAccept(hist[i].f, hist[i].o.key)
+NeverGrantUnlisted == \A i \in 1..Len(hist) : hist[i].granted => RefKeyAccept(hist[i].f, hist[i].o.key)
+\* (the password decisions are stateless as well: the harness replays every ordered pair of password cases on one server
+\* and compares the second decision with the same Ref)
 PwDecisionsRight == \A u \in Users, pw \in Passwords, a \in Addrs : ImplPwAccept(u, pw, a) = RefPwAccept(u, pw, a)
 HealthOnly == \A c \in Commands : ImplHealthAnswers(c) = RefHealthAnswers(c)
 =============================================================================
